@@ -109,11 +109,13 @@ func genBMap(w *vhlib.Writer, rng *vhlib.Rng, thorough bool) {
 		return randMap(rng, 5)
 	}
 	// single calls: every method x every wrapper x nil / empty / populated receivers
+	// (the same call goes through all four wrappers: a Safe method has its own body and is never assumed equal)
 	for _, name := range bmMethods {
-		for wi := 0; wi < 4; wi++ {
-			for r := 0; r < reps; r++ {
-				init := inits(r)
-				runMapCase(w, "bmap", wi, init, []mop{randMop(rng, name, init)})
+		for r := 0; r < reps; r++ {
+			init := inits(r)
+			o := randMop(rng, name, init)
+			for wi := 0; wi < 4; wi++ {
+				runMapCase(w, "bmap", wi, init, []mop{o})
 			}
 		}
 	}
